@@ -231,3 +231,6 @@ def statCli (kinds : List StatKind) (precisions : List Nat) (header : Bool) (del
 end
 
 end Sfs
+
+/- Rust functions mirrored in this file beyond those cited above (read by tools/trace_matrix.py):
+   cli/src/stat/runner.rs: write_header, write_statistics, write_with_delimiter (statCli: header row, value row, delimiter); core/src/spectrum.rs: iter_frequencies (frequencies of an index), theta_watterson; core/src/spectrum/stat.rs: from_sfs, from_sfs_unchecked (f2 / f3 / f4 / fst on the normalised spectrum); core/src/spectrum/stat/d.rs: from_scs (dimension guard of the D statistics) -/
